@@ -44,7 +44,7 @@ type budget struct {
 var budgets = map[string]budget{
 	"C06": {800000, 30000000, 120, 2400},
 	"C07": {300000, 12000000, 120, 2400},
-	"C08": {16000, 600000, 150, 2400},
+	"C08": {16000, 250000, 150, 3000},
 	"C09": {80000, 3000000, 150, 2400},
 	"C10": {300000, 12000000, 120, 2400},
 	"C11": {400000, 16000000, 120, 2400},
